@@ -60,6 +60,30 @@ PROPS = {
         'design_ref': 'DESIGN.md 5 C04',
         'explanation': 'BIP143 contract',
     },
+    'C06': {
+        'modules': ['contracts.c06'],
+        'level': 'proof',
+        'trusted_base': COMMON_TB,
+        'assumptions': [
+            'ASSUMED: _CheckSig = one uninterpreted predicate checksig_ok(sig, pubkey, subscript, index), the same symbol in code and reference (OpenSSL behind ctypes; DER/pubkey leniency out of scope as the property says)',
+            'ASSUMED for this property: FindAndDelete = uninterpreted function fad (its CODESEPARATOR instance is specified under C03)',
+            'ASSUMED contract bn2vch = num_enc (minimal script-number encoder), unproved (contracts/c08_wip.py)',
+            'NOT COVERED: CHECKMULTISIG / CHECKMULTISIGVERIFY step semantics (only containment, index safety and termination are proved, under C07); the reference step for them is not specified',
+            'NOT PROVED: the composition "acceptance of whole programs" is by induction over the operation sequence on paper (each step is an obligation); VerifyScript P2SH / CLEANSTACK wiring is covered under C07 only at containment level',
+            'byte strings shorter than 2^32 bytes; hashes uninterpreted (same symbols in code and reference)',
+        ],
+        'level_text': 'Step simulation: for each of the 256 opcode values (case split), executed and unexecuted, from an '
+                      'arbitrary state within the limits, one iteration of the interpreter loop raises an evaluation error '
+                      'exactly when the reference step (specs/interp.py, written from the consensus interpreter) fails, '
+                      'and otherwise yields exactly the reference successor stack, alt stack, IF-state, operation counter '
+                      'and code-separator position - covering pushes and the 520-byte limit, constants, flow control, all '
+                      'stack operations, 4-byte-limited arithmetic and comparisons, the five hash opcodes, CHECKSIG(VERIFY) '
+                      'with signature removal and CODESEPARATOR, NOPs with the discourage flag, disabled/reserved opcodes in '
+                      'both branches, the 201-operation and 1000-item limits. CHECKMULTISIG is excluded.',
+        'level_note': 'trusted: pyvc, z3/cvc5, assumed _CheckSig / FindAndDelete / bn2vch contracts, specs/interp.py',
+        'design_ref': 'DESIGN.md 5 C06',
+        'explanation': 'interpreter step contracts',
+    },
     'C07': {
         'modules': ['contracts.c06'],
         'level': 'proof',
